@@ -91,7 +91,7 @@ def run(ctx):
         # the input state is built by one of three histories: problem parser (facts annotated with the predicates'
         # declared types), the library's own transitions from the initial state (facts annotated with the types of
         # the adding actions' parameters), trajectory parser (facts annotated with the objects' own types)
-        route = 0 if k == 0 else ctx.s("ops").draw(3)
+        route = 0 if k == 0 else ctx.s("ops").draw(4)
         if route == 1 and history_ok:
             d, p, s0 = lib(ctx, W, None, f"-{k}")
             cur = interp.init_state(W.P)
@@ -105,6 +105,18 @@ def run(ctx):
                 compare(ctx, C.abs_state(s0, "Operator.apply (history)", ID), cur, "Operator.apply (history)", "",
                         W, cur, (ta, targs))
             ctx.probes["input_state_by_history"] += 1
+        elif route == 3:
+            # a state object that was queried (serialized, tested for applicability) while it denoted a NEIGHBOUR state
+            # and was then edited in place, through the library's own containers and mutators, into the state wanted
+            S_near = neighbour(ctx.s("ops"), S)
+            d, p, s0 = lib(ctx, W, S_near, f"-{k}")
+            s0.serialize()
+            try:
+                L().Operator(d.actions[aname], d, list(args), p.objects).is_applicable(s0)
+            except Exception:
+                pass
+            edit_in_place(d, s0, S_near, S)
+            ctx.probes["input_state_edited_in_place"] += 1
         elif route == 2:
             d, p, _ = lib(ctx, W, None, f"-{k}")
             text = "(:state " + " ".join("(" + " ".join(f) + ")" for f in sorted(S[0])) + " " + " ".join(
@@ -194,6 +206,38 @@ def apply(ctx, op, s0, flags, site, rec):
     finally:
         ge.GroundedEffect.apply = orig
     return C.abs_state(r, site, ID)
+
+
+def neighbour(t, S):
+    """S with one or two facts flipped and one fluent changed"""
+    facts = set(S[0])
+    fl = dict(S[1])
+    for f in sorted(facts)[:8]:
+        if t.chance(1, 4):
+            facts.discard(f)
+    for k in sorted(fl)[:6]:
+        if t.chance(1, 3):
+            fl[k] = fl[k] + 1.5
+    return (frozenset(facts), fl)
+
+
+def edit_in_place(d, st, S_from, S_to):
+    """turn the library state (currently denoting S_from, same universe) into S_to by editing its containers"""
+    from ref.walker import fn_args
+    for f in S_to[0] - S_from[0]:
+        lifted = d.predicates[f[0]]
+        gp = L().models.GroundedPredicate(name=f[0], signature=dict(lifted.signature),
+                                          object_mapping=dict(zip(lifted.signature, f[1:])))
+        st.state_predicates.setdefault(lifted.untyped_representation, set()).add(gp)
+    for f in S_from[0] - S_to[0]:
+        for group in st.state_predicates.values():
+            for gp in list(group):
+                if (gp.name,) + tuple(gp.object_mapping[q] for q in gp.signature) == f:
+                    group.discard(gp)
+    for fn in st.state_fluents.values():
+        k = (fn.name,) + tuple(fn_args(fn))
+        if k in S_to[1] and S_to[1][k] != fn.stored_value:
+            fn.set_value(S_to[1][k])
 
 
 def apply_raw(op, st, site):
